@@ -15,3 +15,8 @@ import AGV.Props.C02
 #print axioms AGV.Props.C02.c02_nested_list_merge_repaired_example
 #print axioms AGV.Props.C02.c03dyn_no_capture_witness
 #print axioms AGV.Props.C02.c03dyn_error_path_witness
+#print axioms AGV.Props.C02.c02_data_full_needs_validity
+#print axioms AGV.Props.C02.c02_data_full_needs_typed_world
+#print axioms AGV.Props.C02.c02_collect_spread_once
+#print axioms AGV.Props.C02.c02_data_partial_nodup
+#print axioms AGV.Props.C02.c02_data_partial_nodup_example
